@@ -30,7 +30,7 @@
 EXTENDS Naturals, FiniteSets, TLC
 
 CONSTANTS NT,        \* tenants 1..NT
-          NC,        \* caller threads 1..NC
+          Callers,   \* caller threads (model values, symmetric)
           Cap1,      \* capacity (= rate per second) of tenant 1, tokens
           Cap2,      \* capacity of every other tenant
           GCap,      \* capacity of the global bucket, 0 = no global bucket
@@ -44,17 +44,16 @@ CONSTANTS NT,        \* tenants 1..NT
 VARIABLES now,       \* the clock
           bk,        \* bucket id -> [tok, last, ex]; bucket 0 is the global one
           pc, ten,   \* per caller: program counter, tenant of the call in flight
-          st, ct,    \* per caller: tick at which the call began, tick of its tenant consume
-          consT,     \* tenant -> tick -> admitted calls that took their tenant token at that tick
-          admG,      \* tick -> admitted calls that took their global token at that tick
-          win,       \* tenant -> <<s, e>> -> admitted calls that began at tick s and returned at tick e
+          ct,        \* per caller: tick of the tenant consume of the call in flight
+          win,       \* history: tenant -> <<s, e>> -> admitted calls that took their tenant token at
+                     \* tick s and returned at tick e
           okStarve,  \* history flag: no refusal so far happened with a provably non-empty bucket
           okStrict   \* history flag for the stricter (false) reading, see NoTransientWithhold
 
-vars == <<now, bk, pc, ten, st, ct, consT, admG, win, okStarve, okStrict>>
+vars == <<now, bk, pc, ten, ct, win, okStarve, okStrict>>
 
+NC      == Cardinality(Callers)
 Tenants == 1..NT
-Callers == 1..NC
 Ticks   == 0..MaxTick
 Spans   == { p \in Ticks \X Ticks : p[1] <= p[2] }
 G       == 0
@@ -74,21 +73,24 @@ Refill(b, s) ==
 
 Enough(tok) == IF Bug = "ge_zero" THEN tok > 0 ELSE tok >= Unit
 
-ZeroT == [u \in Ticks |-> 0]
-
 Init ==
   /\ now = 0
   /\ bk = [b \in Tenants \cup {G} |-> [tok |-> Full(b), last |-> 0, ex |-> (b = G)]]  \* global bucket made by the constructor
-  /\ pc = [c \in Callers |-> "idle"] /\ ten = [c \in Callers |-> 0]
-  /\ st = [c \in Callers |-> 0] /\ ct = [c \in Callers |-> 0]
-  /\ consT = [t \in Tenants |-> ZeroT] /\ admG = ZeroT
+  /\ pc = [c \in Callers |-> "idle"] /\ ten = [c \in Callers |-> 0] /\ ct = [c \in Callers |-> 0]
   /\ win = [t \in Tenants |-> [p \in Spans |-> 0]]
   /\ okStarve = TRUE /\ okStrict = TRUE
 
 -----------------------------------------------------------------------------
 (* What the bucket content must be, given only the calls that count.       *)
 
-SumRange(f, s, e) == LET RECURSIVE S(_) S(u) == IF u > e THEN 0 ELSE f[u] + S(u + 1) IN S(s)
+RECURSIVE SumRange(_, _, _)
+SumRange(f, s, e) == IF s > e THEN 0 ELSE f[s] + SumRange(f, s + 1, e)
+
+\* admitted calls by the tick of their tenant consume / of their global consume (= return)
+ConsT(t) == [u \in Ticks |-> SumRange([e \in Ticks |-> IF u <= e THEN win[t][<<u, e>>] ELSE 0], u, MaxTick)]
+RECURSIVE AllT(_, _)
+AllT(t, p) == IF t > NT THEN 0 ELSE win[t][p] + AllT(t + 1, p)
+ConsG    == [u \in Ticks |-> SumRange([s \in Ticks |-> IF s <= u THEN AllT(1, <<s, u>>) ELSE 0], 0, u)]
 
 \* Closed form of a token bucket that is full at tick 0, refills Rate per tick,
 \* is capped at Full and lost cons[u] tokens at tick u:
@@ -99,46 +101,35 @@ Level(b, cons) == CHOOSE x \in LevelSet(b, cons) : \A y \in LevelSet(b, cons) : 
 Holders(t)    == { c \in Callers : pc[c] \in {"global", "refund"} /\ ten[c] = t }
 Holding(t, u) == Cardinality({ c \in Holders(t) : ct[c] = u })
 \* tokens taken from tenant t's bucket: admitted calls, plus calls in flight that hold a token
-ConsH(t) == [u \in Ticks |-> consT[t][u] + Holding(t, u)]
+ConsH(t) == [u \in Ticks |-> ConsT(t)[u] + Holding(t, u)]
 
 Refilled(b) == IF now > bk[b].last THEN Min(Full(b), bk[b].tok + (now - bk[b].last) * Rate(b)) ELSE bk[b].tok
 
 -----------------------------------------------------------------------------
-Return(c) == /\ pc' = [pc EXCEPT ![c] = "idle"] /\ ten' = [ten EXCEPT ![c] = 0]
-             /\ st' = [st EXCEPT ![c] = 0] /\ ct' = [ct EXCEPT ![c] = 0]
+Return(c) == pc' = [pc EXCEPT ![c] = "idle"] /\ ten' = [ten EXCEPT ![c] = 0] /\ ct' = [ct EXCEPT ![c] = 0]
 
 \* check_limit returns true; u = tick of the call's tenant consume
-Admit(c, t, u) ==
-  /\ consT' = [consT EXCEPT ![t][u] = @ + 1]
-  /\ win' = [win EXCEPT ![t][<<st[c], now>>] = @ + 1]
-  /\ Return(c)
+Admit(c, t, u) == win' = [win EXCEPT ![t][<<u, now>>] = @ + 1] /\ Return(c)
 
-\* read-locked lookup, or write-locked entry().or_insert_with(TokenBucket::new)
-Begin(c, t) ==
+\* Lookup (read lock) or lazy creation (write lock, entry().or_insert_with(TokenBucket::new)) of the
+\* tenant bucket, then bucket.lock().try_consume().  The lookup is folded into this step: the caller's
+\* `before` can only be earlier than the consume, which makes every window longer, never shorter.
+ConsumeTenant(c, t) ==
   /\ pc[c] = "idle"
-  /\ pc' = [pc EXCEPT ![c] = "tenant"]
-  /\ ten' = [ten EXCEPT ![c] = t] /\ st' = [st EXCEPT ![c] = now]
-  /\ bk' = IF bk[t].ex THEN bk ELSE [bk EXCEPT ![t] = [tok |-> Full(t), last |-> now, ex |-> TRUE]]
-  /\ UNCHANGED <<now, ct, consT, admG, win, okStarve, okStrict>>
-
-\* bucket.lock().try_consume()
-ConsumeTenant(c) ==
-  /\ pc[c] = "tenant"
-  /\ LET t == ten[c]
-         s == Refill(t, bk[t])
+  /\ LET b0 == IF bk[t].ex THEN bk[t] ELSE [tok |-> Full(t), last |-> now, ex |-> TRUE]
+         s  == Refill(t, b0)
      IN IF Enough(s.tok)
         THEN /\ bk' = [bk EXCEPT ![t] = [s EXCEPT !.tok = s.tok - Unit]]
              /\ IF HasGlobal
-                THEN /\ pc' = [pc EXCEPT ![c] = "global"] /\ ct' = [ct EXCEPT ![c] = now]
-                     /\ UNCHANGED <<ten, st, consT, win>>
-                ELSE Admit(c, t, now)
-             /\ UNCHANGED <<admG, okStarve, okStrict>>
+                THEN /\ pc' = [pc EXCEPT ![c] = "global"] /\ ten' = [ten EXCEPT ![c] = t]
+                     /\ ct' = [ct EXCEPT ![c] = now] /\ UNCHANGED win
+                ELSE win' = [win EXCEPT ![t][<<now, now>>] = @ + 1] /\ UNCHANGED <<pc, ten, ct>>
+             /\ UNCHANGED <<okStarve, okStrict>>
         ELSE /\ bk' = [bk EXCEPT ![t] = IF Bug = "refund_on_tenant_refusal"
                                          THEN [s EXCEPT !.tok = Min(s.tok + Unit, Full(t))] ELSE s]
              /\ okStarve' = (okStarve /\ Level(t, ConsH(t)) < Unit)
-             /\ okStrict' = (okStrict /\ ~(Level(t, consT[t]) >= Unit /\ (HasGlobal => Level(G, admG) >= Unit)))
-             /\ Return(c)
-             /\ UNCHANGED <<consT, admG, win>>
+             /\ okStrict' = (okStrict /\ ~(Level(t, ConsT(t)) >= Unit /\ (HasGlobal => Level(G, ConsG) >= Unit)))
+             /\ UNCHANGED <<pc, ten, ct, win>>
   /\ UNCHANGED now
 
 \* global.lock().try_consume()
@@ -147,14 +138,13 @@ ConsumeGlobal(c) ==
   /\ LET s == Refill(G, bk[G])
      IN IF Enough(s.tok)
         THEN /\ bk' = [bk EXCEPT ![G] = [s EXCEPT !.tok = s.tok - Unit]]
-             /\ admG' = [admG EXCEPT ![now] = @ + 1]
              /\ Admit(c, ten[c], ct[c])
              /\ UNCHANGED okStarve
         ELSE /\ bk' = [bk EXCEPT ![G] = s]
-             /\ okStarve' = (okStarve /\ Level(G, admG) < Unit)
+             /\ okStarve' = (okStarve /\ Level(G, ConsG) < Unit)
              /\ IF Bug = "no_refund" THEN Return(c)
-                ELSE pc' = [pc EXCEPT ![c] = "refund"] /\ UNCHANGED <<ten, st, ct>>
-             /\ UNCHANGED <<consT, admG, win>>
+                ELSE pc' = [pc EXCEPT ![c] = "refund"] /\ UNCHANGED <<ten, ct>>
+             /\ UNCHANGED win
   /\ UNCHANGED <<now, okStrict>>
 
 \* bucket.lock().refund_one(): tokens = min(tokens + 1.0, capacity); no refill, last_refill untouched
@@ -163,30 +153,35 @@ Refund(c) ==
   /\ LET t == ten[c]
      IN bk' = [bk EXCEPT ![t].tok = IF Bug = "refund_uncapped" THEN @ + Unit ELSE Min(@ + Unit, Full(t))]
   /\ Return(c)
-  /\ UNCHANGED <<now, consT, admG, win, okStarve, okStrict>>
+  /\ UNCHANGED <<now, win, okStarve, okStrict>>
 
-Tick == now < MaxTick /\ now' = now + 1 /\ UNCHANGED <<bk, pc, ten, st, ct, consT, admG, win, okStarve, okStrict>>
+Tick == now < MaxTick /\ now' = now + 1 /\ UNCHANGED <<bk, pc, ten, ct, win, okStarve, okStrict>>
 
 Next == \/ Tick
-        \/ \E c \in Callers : \/ \E t \in Tenants : Begin(c, t)
-                              \/ ConsumeTenant(c) \/ ConsumeGlobal(c) \/ Refund(c)
+        \/ \E c \in Callers : \/ \E t \in Tenants : ConsumeTenant(c, t)
+                              \/ ConsumeGlobal(c) \/ Refund(c)
 
 Spec == Init /\ [][Next]_vars
+
+\* Two stored buckets that agree after the pending refill behave identically from now on (refill is
+\* additive up to the cap, and the refund's cap commutes with it), so states are identified modulo it.
+View == <<now, [b \in Tenants \cup {G} |-> <<Refilled(b), bk[b].ex>>], pc, ten, ct, win, okStarve, okStrict>>
+Sym  == Permutations(Callers)
 
 -----------------------------------------------------------------------------
 TypeOK ==
   /\ now \in Ticks
   /\ \A b \in Tenants \cup {G} : bk[b].tok \in Nat /\ bk[b].last \in 0..now
-  /\ \A c \in Callers : /\ pc[c] \in {"idle", "tenant", "global", "refund"} /\ ten[c] \in 0..NT
-                        /\ st[c] \in 0..now /\ ct[c] \in 0..now
+  /\ \A c \in Callers : pc[c] \in {"idle", "global", "refund"} /\ ten[c] \in 0..NT /\ ct[c] \in 0..now
 
 Capped == \A b \in Tenants \cup {G} : bk[b].tok <= Full(b)
 
 \* ---- the property, on the callers' clock ---------------------------------------------------------
-\* admitted calls of tenant t whose whole interval [begin, return] lies inside [S, E]
-CountIn(t, S, E) == LET RECURSIVE C(_, _)
-                        C(s, e) == IF s > E THEN 0 ELSE IF e > E THEN C(s + 1, s + 1) ELSE win[t][<<s, e>>] + C(s, e + 1)
-                    IN C(S, S)
+\* admitted calls of tenant t whose interval [s, e] lies inside [S, E]
+RECURSIVE CountFrom(_, _, _, _)
+CountFrom(t, s, e, E) == IF s > E THEN 0 ELSE IF e > E THEN CountFrom(t, s + 1, s + 1, E)
+                         ELSE win[t][<<s, e>>] + CountFrom(t, s, e + 1, E)
+CountIn(t, S, E) == CountFrom(t, S, S, E)
 RECURSIVE SumT(_, _, _)
 SumT(t, S, E) == IF t > NT THEN 0 ELSE CountIn(t, S, E) + SumT(t + 1, S, E)
 
@@ -200,7 +195,7 @@ GlobalWindowBound == HasGlobal => \A S \in 0..now : \A E \in S..now :
 \* no global bucket, but NOT with a global bucket and two callers of one tenant: a caller that took the
 \* tenant token and is on its way to be refused by the global bucket hides that token from the
 \* capacity cap; a concurrent access refills the bucket to "full" next to the hidden token, and the
-\* refund then lands on top of refill that should have been discarded (see Strict = "window").
+\* refund then lands on top of refill that should have been discarded (Strict = "window" shows it).
 \* The excess is at most one token per other caller.
 TenantWindowBound == TenantWindowOK(IF Strict = "window" \/ ~HasGlobal THEN 0 ELSE Unit * (NC - 1))
 
@@ -209,9 +204,9 @@ TenantWindowBound == TenantWindowOK(IF Strict = "window" \/ ~HasGlobal THEN 0 EL
 \* refill its next access applies) holds at least what admitted calls and calls still in flight leave.
 RefundNeverCosts == \A t \in Tenants : bk[t].ex => Refilled(t) >= Level(t, ConsH(t))
 \* ... and "leaves the bucket exactly as it was" (Strict = "neutral"); fails for the reason above.
-RefundNeutral == (Strict = "neutral") => \A t \in Tenants : bk[t].ex => Refilled(t) = Level(t, ConsH(t))
+RefundNeutral == (Strict = "neutral" \/ NC = 1) => \A t \in Tenants : bk[t].ex => Refilled(t) = Level(t, ConsH(t))
 \* the global bucket is consumed by admitted calls only, exactly
-GlobalExact   == HasGlobal => Refilled(G) = Level(G, admG)
+GlobalExact   == HasGlobal => Refilled(G) = Level(G, ConsG)
 
 \* ---- starvation -------------------------------------------------------------------------------------
 \* No call was refused at a stage whose bucket, as determined by admitted and in-flight calls, held a token.
@@ -222,5 +217,5 @@ NoStarveBelowRate == okStarve
 \* has room".  Fails: between a caller's failed global consume and its refund the tenant token is
 \* withheld; if the clock advances in that window the global bucket regains room and a concurrent call
 \* of the same tenant is refused.  Not observable on caller clocks (the two calls overlap).
-NoTransientWithhold == (Strict = "withhold") => okStrict
+NoTransientWithhold == (Strict = "withhold" \/ NC = 1) => okStrict
 =============================================================================
